@@ -212,8 +212,8 @@ def run(ctx, chk):
             for q in eng.run(b):
                 if q.kind == 'return' and q.value[0] == 'agg' and q.value[2] == 'Ok':
                     for ef in q.effects:
-                        if ef['kind'] == 'call' and ef['callee'].endswith('::add') and psi.is_int_const(ef['args'][1]):
-                            offs[side] = ef['args'][1][1]
+                        if ef['kind'] == 'call' and common.ptr_advance_bytes(fb, ef) is not None:
+                            offs[side] = common.ptr_advance_bytes(fb, ef)
     # the type each side actually moves through its record pointer: the type argument of the raw-pointer
     # read reachable from ShmReader::snapshot and of the raw-pointer write reachable from ShmWriter::write
     ptr_tys = {}
